@@ -72,6 +72,14 @@ func (d *uintDecoder) decodeStreamByte(s *Stream) ([]byte, error) {
 			continue
 		case '0':
 			s.cursor++
+			if s.char() == nul {
+				s.read()
+			}
+			// in a stream a digit after the leading zero starts the next value;
+			// a fraction or exponent means the literal is not an integer
+			if intTailTable[s.char()] {
+				return nil, d.typeError(numZeroBuf, s.totalOffset())
+			}
 			return numZeroBuf, nil
 		case '1', '2', '3', '4', '5', '6', '7', '8', '9':
 			start := s.cursor
@@ -88,6 +96,9 @@ func (d *uintDecoder) decodeStreamByte(s *Stream) ([]byte, error) {
 				break
 			}
 			num := s.buf[start:s.cursor]
+			if !validIntegerLiteral(num, s.char()) {
+				return nil, d.typeError(num, s.totalOffset())
+			}
 			return num, nil
 		case 'n':
 			if err := nullBytes(s); err != nil {
@@ -114,6 +125,11 @@ func (d *uintDecoder) decodeByte(buf []byte, cursor int64) ([]byte, int64, error
 			continue
 		case '0':
 			cursor++
+			// a digit after the leading zero is reported by the caller
+			// (invalid character after the value); a fraction or exponent is not an integer
+			if intTailTable[buf[cursor]] {
+				return nil, 0, d.typeError(numZeroBuf, cursor)
+			}
 			return numZeroBuf, cursor, nil
 		case '1', '2', '3', '4', '5', '6', '7', '8', '9':
 			start := cursor
@@ -122,6 +138,9 @@ func (d *uintDecoder) decodeByte(buf []byte, cursor int64) ([]byte, int64, error
 				cursor++
 			}
 			num := buf[start:cursor]
+			if !validIntegerLiteral(num, buf[cursor]) {
+				return nil, 0, d.typeError(num, cursor)
+			}
 			return num, cursor, nil
 		case 'n':
 			if err := validateNull(buf, cursor); err != nil {
